@@ -26,6 +26,11 @@ REPO = Path(os.environ.get("MVERIF_REPO", "/repo"))
 
 def load_corpus():
     muts = []
+    # every confirmed seeded change under /verif/seeded/<id>/ is a mutant too
+    for meta in sorted((VERIF / "seeded").glob("*/meta.json")):
+        md = json.loads(meta.read_text())
+        for exp in md.get("expected", []):
+            muts.append({"id": f"seeded-{meta.parent.name}-{exp['prop']}", "prop": exp["prop"], "rule": exp["rule"], "patch": meta.parent / "patch.diff", **({"key": exp["key"]} if exp.get("key") else {})})
     for p in sorted((HERE / "corpus").glob("*.py")):
         spec = importlib.util.spec_from_file_location(p.stem, p)
         m = importlib.util.module_from_spec(spec)
@@ -39,7 +44,11 @@ def run_one(mut):
     try:
         dst = tmp / "src" / "mici"
         shutil.copytree(REPO / "src" / "mici", dst)
-        for edit in mut["edits"]:
+        if mut.get("patch"):
+            pr = subprocess.run(["patch", "-s", "-p1", "-i", str(mut["patch"])], cwd=tmp, capture_output=True, text=True)
+            if pr.returncode != 0:
+                return mut, "STALE", f"patch does not apply: {pr.stdout[-300:]}"
+        for edit in mut.get("edits", []):
             fp = dst / edit["file"]
             s = fp.read_text()
             if s.count(edit["old"]) != 1:
